@@ -1,0 +1,51 @@
+//go:build verif
+
+package workflow
+
+// This file is compiled only with the build tag "verif". It re-exports a few unexported, side-effect free
+// internals so that the verification harness in /verif (a separate Go module) can compare them with its
+// formal model. It adds code only and changes no behaviour.
+
+import (
+	"hash/fnv"
+
+	"github.com/luno/workflow/internal/errorcounter"
+	"github.com/luno/workflow/internal/graph"
+)
+
+func VerifShardFilter(shard, totalShards int) EventFilter { return shardFilter(shard, totalShards) }
+
+func VerifFilterByForeignID(foreignID string) EventFilter { return filterByForeignID(foreignID) }
+
+func VerifFilterByRunID(runID string) EventFilter { return filterByRunID(runID) }
+
+func VerifFilterByRunState(rs RunState) EventFilter { return filterByRunState(rs) }
+
+func VerifMakeRole(inputs ...string) string { return makeRole(inputs...) }
+
+func VerifConnectorEventToEvent(e *ConnectorEvent) (*Event, error) {
+	return connectorEventToEvent(fnv.New64(), e)
+}
+
+func VerifStreamerEventToConnectorEvent(e *Event) (*ConnectorEvent, error) {
+	return streamerEventToConnectorEvent(e)
+}
+
+func VerifNewGraph() *graph.Graph { return graph.New() }
+
+func VerifNewErrorCounter() errorcounter.ErrorCounter { return errorcounter.New() }
+
+func VerifRunStateTransitionAllowed(from, to RunState) bool {
+	valid, ok := runStateTransitions[from]
+	return ok && valid[to]
+}
+
+// VerifGraph exposes the status graph of a built workflow (read-only use).
+func (w *Workflow[Type, Status]) VerifGraph() *graph.Graph { return w.statusGraph }
+
+// VerifDefaultStartingPoint exposes the default starting status chosen by Build.
+func (w *Workflow[Type, Status]) VerifDefaultStartingPoint() Status { return w.defaultStartingPoint }
+
+func VerifValidateTransition[Status StatusType](current, next Status, g *graph.Graph) error {
+	return validateTransition(current, next, g)
+}
